@@ -140,6 +140,22 @@ func (l *Loaded) GenerateAll() map[string]string {
 	return outs
 }
 
+// GenerateReordered loads the program again (new type objects) and generates
+// the files in reverse order: what a file's outputs are must not depend on
+// which other files of the same load were generated before it.
+func (l *Loaded) GenerateReordered() (map[string]string, error) {
+	rel := make([]string, len(l.Files))
+	for i, f := range l.Files {
+		r, _ := filepath.Rel(l.Dir, f)
+		rel[len(l.Files)-1-i] = r
+	}
+	l2, err := Load(l.Dir, rel)
+	if err != nil {
+		return nil, err
+	}
+	return l2.GenerateAll(), nil
+}
+
 func Hash(s string) string {
 	h := sha256.Sum256([]byte(s))
 	return hex.EncodeToString(h[:8])
